@@ -138,7 +138,11 @@ impl Lx {
     pub fn lit(&mut self, pieces: &[&str]) -> &mut Lx {
         let n = pieces.len();
         for (i, t) in pieces.iter().enumerate() {
-            let class = classify_piece(t);
+            // alphabetic pieces of a literal that are not reserved words (T, D, ms, h, …) are literal parts
+            let class = match classify_piece(t) {
+                Class::Ident if n > 1 => Class::LitPart,
+                c => c,
+            };
             let mut l = Lexeme::new(t, class);
             if i + 1 < n {
                 l.glue = Some(Glue::Hard);
